@@ -946,6 +946,20 @@ class SymEx:
             for x, b in self.decide(t[1], st, node):
                 out.extend(self.decide(t[2] if b else t[3], x, node))
             return out
+        if self.oracle is not None and h == 'call' and t[1] in (('ext', 'ANY'), ('ext', 'ALL')) and len(t[2]) == 1 and t[2][0][0] in ('list', 'tuple') and not t[3] \
+                and 1 <= len(t[2][0][1]) <= 6:
+            # any([a, b, c]) with the tests written out: decided test by test when an oracle can speak about them (the test itself stays one condition of the path)
+            vs = [self.oracle.evalbool(z) if hasattr(self.oracle, 'evalbool') else None for z in t[2][0][1]]
+            r = None
+            if t[1][1] == 'ANY':
+                r = True if any(v is True for v in vs) else (None if None in vs else False)
+            else:
+                r = False if any(v is False for v in vs) else (None if None in vs else True)
+            if r is not None:
+                x = st.copy()
+                x.decided[T.tkey(t)] = r
+                x.conds = st.conds + ((t, r, self.site(node)),)
+                return [(x, r)]
         k = T.tkey(t)
         if k in st.decided:
             return [(st, st.decided[k])]
@@ -3685,6 +3699,12 @@ class Valuation:
         if h == 'ite':
             c = self.evalbool(t[1])
             return None if c is None else self.evalbool(t[2] if c else t[3])
+        if h == 'call' and t[1] in (('ext', 'ANY'), ('ext', 'ALL')) and len(t[2]) == 1 and t[2][0][0] in ('list', 'tuple') and not t[3]:
+            # any([...]) / all([...]) over tests written out one by one
+            vs = [self.evalbool(z) for z in t[2][0][1]]
+            if t[1][1] == 'ANY':
+                return True if any(v is True for v in vs) else (None if None in vs else False)
+            return False if any(v is False for v in vs) else (None if None in vs else True)
         return self(t)
 
     def rel(self, a, b):
